@@ -58,7 +58,7 @@ type ccSpec struct {
 	remove []int    // indices of base entries the edit removes
 	twins  []int    // indices of base entries of which a same-identity twin (other start) is added
 	fresh  int      // number of new-identity entries added
-	mode   string   // what races with the parked Pop: "edit" (EditTask), "pop2" (a second Pop), "look" (Schedule / Peek)
+	mode   string   // what races with the parked Pop: "edit" (EditTask), "pop2" (a second Pop), "look" (Schedule / Peek), "stop"; "edit2": two EditTasks, the first parked in its callback
 }
 
 type ccWorld struct {
@@ -184,6 +184,9 @@ func ccRace(sp ccSpec) (out string, editInside bool, err error) {
 	}
 	if sp.mode == "stop" {
 		return ccRaceStop(w) // (has its own Pop; must not start the one below, which would park holding the store's mutex)
+	}
+	if sp.mode == "edit2" {
+		return ccRaceEdit2(sp, w, fn)
 	}
 	popDone := make(chan popRes, 1)
 	editDone := make(chan error, 1)
@@ -323,6 +326,107 @@ func ccRaceStop(w *ccWorld) (string, bool, error) {
 	return fmt.Sprintf("armed=%v pending=%v", armed, pending), inside, nil
 }
 
+// editFnB: the second edit of mode "edit2": removes the first base entry the first edit keeps and adds one entry of a
+// new identity.
+func (w *ccWorld) editFnB(sp ccSpec) (func([]*cron.Entry) []*cron.Entry, error) {
+	inA := map[int]bool{}
+	for _, i := range sp.remove {
+		inA[i] = true
+	}
+	var victim *cron.Entry
+	for i, e := range w.base {
+		if !inA[i] {
+			victim = e
+			break
+		}
+	}
+	added, err := ccEntry(200, "@every 35m", 4, nil)
+	if err != nil {
+		return nil, err
+	}
+	return func(es []*cron.Entry) []*cron.Entry {
+		var out []*cron.Entry
+		for _, e := range es {
+			if e != victim {
+				out = append(out, e)
+			}
+		}
+		return append(out, added)
+	}, nil
+}
+
+func (w *ccWorld) outcome2(errA, errB error) string {
+	var s []string
+	for _, t := range w.store.Schedule() {
+		s = append(s, ccTaskKey(t))
+	}
+	sort.Strings(s)
+	return fmt.Sprintf("editA=%s editB=%s pending=[%s]", proto.Res(errA), proto.Res(errB), strings.Join(s, " "))
+}
+
+// ccRaceEdit2: the first EditTask is parked INSIDE its callback (the callback is ours) while a second EditTask runs.
+// With the store's mutex held over callback and update the second edit waits; whatever happens, the two edits must
+// leave what the two edits in one of the two orders leave (C16: an edit touches only what it edited - an entry another
+// edit removed is not handed out again, an entry another edit added is not dropped).
+func ccRaceEdit2(sp ccSpec, w *ccWorld, fnA func([]*cron.Entry) []*cron.Entry) (string, bool, error) {
+	fnB, err := w.editFnB(sp)
+	if err != nil {
+		return "", false, err
+	}
+	inCb := make(chan struct{})
+	release := make(chan struct{})
+	var once atomic.Bool
+	parkedA := func(es []*cron.Entry) []*cron.Entry {
+		if once.CompareAndSwap(false, true) {
+			inCb <- struct{}{}
+			<-release
+		}
+		return fnA(es)
+	}
+	aDone := make(chan error, 1)
+	bDone := make(chan error, 1)
+	go func() { aDone <- w.store.EditTask(parkedA) }()
+	<-inCb
+	go func() { bDone <- w.store.EditTask(fnB) }()
+	inside := false
+	var errB error
+	select {
+	case errB = <-bDone:
+		inside = true
+	case <-time.After(60 * time.Millisecond):
+	}
+	release <- struct{}{}
+	errA := <-aDone
+	if !inside {
+		errB = <-bDone
+	}
+	return w.outcome2(errA, errB), inside, nil
+}
+
+func ccSequentialEdit2(sp ccSpec, aFirst bool) (string, error) {
+	w, err := ccBuild(sp)
+	if err != nil {
+		return "", err
+	}
+	fnA, err := w.editFn(sp)
+	if err != nil {
+		return "", err
+	}
+	fnB, err := w.editFnB(sp)
+	if err != nil {
+		return "", err
+	}
+	var errA, errB error
+	if aFirst {
+		errA = w.store.EditTask(fnA)
+		errB = w.store.EditTask(fnB)
+	} else {
+		errB = w.store.EditTask(fnB)
+		errA = w.store.EditTask(fnA)
+	}
+	return w.outcome2(errA, errB), nil
+}
+
 // ccSequentialOther: the reference for ccRaceOther.
 func ccSequentialOther(sp ccSpec) (string, error) {
 	w, err := ccBuild(sp)
@@ -369,7 +473,7 @@ func ccGen(r *rng.R) ccSpec {
 		}
 	}
 	sp.fresh = r.Intn(2)
-	sp.mode = rng.Pick(r, []string{"edit", "edit", "pop2", "look", "stop"})
+	sp.mode = rng.Pick(r, []string{"edit", "edit", "pop2", "look", "stop", "edit2"})
 	return sp
 }
 
@@ -452,6 +556,22 @@ func cronConcExec(h sim.History) []string {
 					what = "a reader running while a Pop was in progress saw " + proto.Str(obs) + " (every registered entry has exactly one pending occurrence at any instant)"
 				}
 				out = append(out, "mismatch C15 "+what)
+			}
+			continue
+		}
+		if sp.mode == "edit2" {
+			a, err1 := ccSequentialEdit2(sp, true)
+			b, err2 := ccSequentialEdit2(sp, false)
+			obs, inside, err3 := ccRace(sp)
+			if err1 != nil || err2 != nil || err3 != nil {
+				continue
+			}
+			if inside {
+				ccInside.Add(1)
+			}
+			if obs != a && obs != b {
+				out = append(out, "mismatch C16 two EditTasks ran concurrently (the second started while the first was inside its callback) and left "+
+					proto.Str(obs)+" which neither order explains: first-then-second "+proto.Str(a)+" second-then-first "+proto.Str(b))
 			}
 			continue
 		}
